@@ -15,7 +15,7 @@
 From Coq Require Import Reals List Lra Lia Bool Arith ZArith.
 Set Warnings "-ambiguous-paths".
 From Coquelicot Require Import Coquelicot.
-From WG Require Import Lib.Lagrange Lib.Cheb Lib.Spectral Lib.Quadrature.
+From WG Require Import Lib.Lagrange Lib.Cheb Lib.Spectral Lib.Quadrature Lib.SpectralQuad Lib.ChebIndep.
 From GenC16 Require Import PolyCfg.
 Import ListNotations.
 Local Open Scope R_scope.
@@ -258,11 +258,29 @@ Theorem change_basis_roundtrip_partial : forall Tm Tinv size,
      omatvec ROps Tm (omatvec ROps Tinv v) = v /\ length (omatvec ROps Tinv v) = size).
 Proof. exact roundtrip. Qed.
 Print Assumptions change_basis_roundtrip_partial.
-(* missing for the full statement [basis_matrix_invertible]: tnMatrix c = 0 -> c = 0
-   (linear independence of the restricted T_n on the Gauss-Lobatto nodes).  The part that
-   is proved: tnMatrix c are the values of a polynomial of admissible degree vanishing at
-   the dropped points (chebFun_is_poly, chebFun_vanish) and a polynomial with that many
-   roots is identically zero (roots_bound). *)
+(** basis_matrix_invertible: the matrix that changeBasis builds and inverts is square and
+    has a trivial kernel -- for every direction and end-point flag, on every well-formed
+    grid (distinct nodes, end points -1 / +1), for all sizes.  (That an injective square
+    real matrix has a two-sided inverse is standard linear algebra and not formalised;
+    [change_basis_roundtrip_partial] takes the inverse as a hypothesis.) *)
+Theorem basis_matrix_injective : forall d ep M N grid c,
+  grid_ok d M N grid -> sizes_ok d M N ->
+  length c = length (cfg_range (cfg_changeBasis d ep M N)) ->
+  List.Forall (fun v => v = 0) (omatvec ROps (tnMatrix ROps d ep grid M N) c) ->
+  List.Forall (fun v => v = 0) c.
+Proof. exact tnMatrix_injective. Qed.
+Print Assumptions basis_matrix_injective.
+
+Theorem basis_matrix_square : forall d ep M N (grid : list R),
+  length grid = gsize d M N -> sizes_ok d M N ->
+  length (cfg_range (cfg_changeBasis d ep M N)) = length (trim d ep grid).
+Proof. exact tnMatrix_square. Qed.
+Print Assumptions basis_matrix_square.
+
+(** T_n has exact degree n (n distinct roots cos((2j+1)pi/2n), T_n(1) = 1) *)
+Theorem cheb_exact_degree : forall n, is_poly (S n) (TR n) /\ ~ is_poly n (TR n).
+Proof. intro n. split; [apply TR_is_poly|apply TR_not_lower]. Qed.
+Print Assumptions cheb_exact_degree.
 
 (** linearity *)
 Theorem matrix_action_linear : forall (r a b : list R) k, length a = length b ->
@@ -298,6 +316,31 @@ Theorem gcl_weighted_exact_thm : forall n b, (2 <= n)%nat -> (length b <= 2 * n 
           (PI / INR n * sum_f_R0 (fun k => sin (INR k * PI / INR n) ^ 2 * trigpoly b (INR k * PI / INR n)) n).
 Proof. intros. split; [now apply gcl_weighted_exact|now apply gcl_weighted_exact_plain]. Qed.
 Print Assumptions gcl_weighted_exact_thm.
+
+(** the model of [integrate] (weights pi/n as extracted: divisor, halved entries; dropped end
+    points; factor sqrt(1-x^2)) is the uniform rule on the complete grid -- the end-point
+    terms vanish, so halving / dropping them is immaterial *)
+Theorem integrate_rule_is_uniform : forall d ep grid M N g,
+  hd 0 grid = -1 -> last grid 0 = 1 -> (3 <= length grid)%nat ->
+  ruleR d ep grid M N g = / INR (gen_int_div d ep M N) * Rsum (map (tfun g) grid).
+Proof.
+  intros d ep grid M N g Hh Hl Hlen.
+  replace (gen_int_div d ep M N) with (wdiv d M N) by (destruct d, ep; reflexivity).
+  now apply rule_is_uniform.
+Qed.
+Print Assumptions integrate_rule_is_uniform.
+
+(** integrate is exact on the exactness class, on the Gauss-Lobatto nodes, for every
+    direction and end-point flag: for q with q(-cos t) = sum_{j<=2n-3} b_j cos(j t),
+    pi * rule(q) = int_0^pi sin^2 t q(-cos t) dt   ( = int_{-1}^{1} sqrt(1-x^2) q(x) dx by
+    the substitution x = -cos t, which is not formalised) *)
+Theorem integrate_exact : forall d ep M N b q,
+  (2 <= wdiv d M N)%nat -> (length b <= 2 * wdiv d M N - 2)%nat ->
+  (forall t, q (- cos t) = trigpoly b t) ->
+  is_RInt (fun t => sin t ^ 2 * trigpoly b t) 0 PI
+          (PI * ruleR d ep (gcl_grid (wdiv d M N)) M N q).
+Proof. exact integrate_exact_R. Qed.
+Print Assumptions integrate_exact.
 
 (** non-vacuity: a concrete well-formed grid (M = 2: nodes -1, 0, 1) *)
 Example grid_ok_example : grid_ok Dz 2 3 [-1; 0; 1] /\ sizes_ok Dz 2 3.
